@@ -11,7 +11,7 @@ META = {
              'the physical file, so foreign content is recognisable; signature = (#frames, #logical files, set-name assignment '
              'class, interleaved?); non-trivial when there are >= 2 frames or >= 2 logical files'),
     'required_obs': {'quick': ['multi-lf-written', 'multi-frame-written', 'frames-different-rows', 'interleaved',
-                               'shared-set-names-tried', 'partially-shared-tried', 'lf-order-checked', 'rows-compared',
+                               'shared-set-names-tried', 'partially-shared-tried', 'shared-after-rejected-add', 'lf-order-checked', 'rows-compared',
                                'object-compared']},
     'assumptions': ['a configuration whose set names collide across logical files may be rejected at add_* or at write time'],
 }
@@ -123,6 +123,43 @@ def run_case(case):
                         o['set_name'] = 'COMMON'
                     else:
                         o.pop('set_name', None)
+            if r.random() < 0.5:
+                # a rejected add_* in one logical file comes first and is the first to name the shared set; then the other
+                # logical file uses the set, then the first one (now successfully)
+                sn = 'COMMON' if mode == 'same-explicit-name' else None
+                rej = {'op': 'zone', 'lf': 0, 'name': 'L0-REJECTED', 'attrs': {'domain': 'NOT-A-ZONE-DOMAIN'}, 'expect': 'reject'}
+                z1 = {'op': 'zone', 'lf': 1, 'name': 'L1-ZONE-SHARED', 'attrs': {'description': 'of logical file 1'}}
+                z0 = {'op': 'zone', 'lf': 0, 'name': 'L0-ZONE-SHARED', 'attrs': {'description': 'of logical file 0'}}
+                for z in (rej, z1, z0):
+                    if sn:
+                        z['set_name'] = sn
+                # the three ops reference nothing and nothing references them: put them in front and shift the indices
+                sp['ops'] = [rej, z1, z0] + sp['ops']
+
+                def sh(v):
+                    if isinstance(v, dict):
+                        if '$ref' in v:
+                            return {'$ref': v['$ref'] + 3}
+                        if '$origin_of' in v:
+                            return {'$origin_of': v['$origin_of'] + 3}
+                        return {k: sh(x) for k, x in v.items()}
+                    if isinstance(v, list):
+                        return [sh(x) for x in v]
+                    return v
+                for o in sp['ops'][3:]:
+                    if 'attrs' in o:
+                        o['attrs'] = sh(o['attrs'])
+                    if 'target' in o:
+                        o['target'] += 3
+                    if 'origin_reference' in o:
+                        o['origin_reference'] = sh(o['origin_reference'])
+                # zones of the generated part would also share; keep only the three so that this is the deciding pair
+                if mode == 'one-type':
+                    pick = ['zone']
+                    for o in sp['ops'][3:]:
+                        if o['op'] in schema.TYPES and o.get('set_name') is None and o['op'] != 'zone':
+                            o['set_name'] = f"L{o.get('lf', 0)}-S"
+                bump('shared-after-rejected-add')
             shared = (mode, pick)
             cls = 'shared:' + mode
             bump('shared-set-names-tried')
